@@ -621,6 +621,63 @@ def judge_seq(sysv, prov, spv, seq, obs):
     return bad
 
 
+# ---- (b') the same lookup before and after somebody tries to override the name ---------------------------------------------
+# "equal arguments => equal result" must also hold when the first answer came from what an earlier configuration (or a
+# subproject that failed afterwards) left in the dependency cache: once a lookup has answered, the name is taken.
+def ovr_batch(_job):
+    root = fresh_root('ovr')
+    files = {'pc/.keep': ''}
+    cases = [(k, pre, cons) for k, (pre, cons) in enumerate(itertools.product(('none', 'cached-by-failed-subproject'), (None, '>=1.0')))]
+    names = []
+    for k, pre, cons in cases:
+        files['pc/d%s.pc' % k] = pc_file('d%s' % k, '1.0')
+        kw = lookup_kwargs(k, cons, 'none', True, None)
+        files['subprojects/f%s/meson.build' % k] = "project('f%s')\ndependency('d%s'%s)\nerror('fails after the lookup')\n" % (k, k, kw)
+        files['subprojects/o%s/meson.build' % k] = ("project('o%s', version: '9.9')\nmeson.override_dependency('d%s', declare_dependency(version: '9.9'))\n" % (k, k))
+        body = ["project('c%s')" % k]
+        if pre != 'none':
+            body.append("subproject('f%s', required: false)" % k)
+        for j in (0, 1):
+            body.append("message('VERIF-PRE|%s|%d|')" % (k, j))
+            body.append("d%d = dependency('d%s'%s)" % (j, k, kw))
+            body.append("message('VERIF-RES|%s|%d|@0@|@1@|@2@|'.format(d%d.found(), d%d.type_name(), d%d.version()))" % (k, j, j, j, j))
+            if j == 0:
+                body.append("subproject('o%s', required: false)" % k)
+        files['subprojects/c%s/meson.build' % k] = '\n'.join(body) + '\n'
+        names.append("'c%s'" % k)
+    files['meson.build'] = "project('super')\nforeach n : [%s]\n  subproject(n, required: false)\nendforeach\nmessage('VERIF-DONE')\n" % ', '.join(names)
+    mp.write_tree(root, files)
+    env = mp.base_env(PKG_CONFIG_LIBDIR=os.path.join(root, 'pc'))
+    out = []
+    for rnd, argv in (('first configuration', setup_argv('default', [])), ('setup --reconfigure', ['setup', 'bld', '--reconfigure'])):
+        r = mp.run_meson(argv, root, env=env, pre=pre_hook, timeout=600)
+        pre_, res = parse_obs(r.out)
+        for k, pre, cons in cases:
+            o = [obs_of(pre_, res, (str(k), j)) for j in (0, 1)]
+            out.append((rnd, pre, cons, o, 'Message: VERIF-DONE' in r.out, bool(r.unhandled), r.out[-300:]))
+    shutil.rmtree(root, ignore_errors=True)
+    return out
+
+
+def part_ovr(ck, classes):
+    n = 0
+    for rnd, pre, cons, o, done, unh, tail in ovr_batch(None):
+        n += 1
+        rep = {'part': 'ovr', 'round': rnd, 'pre': pre, 'constraint': cons}
+        what = 'dependency(d%s) twice with an attempted meson.override_dependency() in between (%s, %s)' % (
+            '' if cons is None else ", version: '%s'" % cons, rnd, 'name first looked up by a subproject that then failed' if pre != 'none' else 'no earlier lookup')
+        if not done:
+            ck.violation('C10:ovr:%s' % ('unhandled-exception' if unh else 'setup-aborted'), '%s: meson setup aborted: %s' % (what, tail), rep)
+            continue
+        classes.add(('ovr', rnd, pre))
+        if o[0] != ('system', '1.0'):
+            ck.violation('C10:ovr:first-lookup', '%s: the first lookup gives %s, the system has 1.0 and nothing overrode the name yet' % (what, o[0]), rep)
+        elif o[1] != o[0]:
+            ck.violation('C10:ovr:same-args-differ', '%s: first %s, then %s' % (what, o[0], o[1]), rep)
+    ck.part('override_consistency', cases=n, meson_runs=2)
+    return n, 2
+
+
 def part_seq(ck, classes):
     alpha = list(itertools.product(CONS, REQ, AF, [False, True]))
     envs = [(s, p) for s in SYS for p in ('none', 'wrap')]
@@ -1277,6 +1334,12 @@ def replay(ck):
         print('expected :', out2)
         print('observed : first', obs1.get(0), 'then', obs2.get(0), tail[-300:])
         sys.exit(1 if not (done1 and done2) or (out2[0] != 'unspecified' and obs2.get(0) != expected_obs(out2)) else 0)
+    if part == 'ovr':
+        bad = 0
+        for rnd, pre, cons, o, done, unh, tail in ovr_batch(None):
+            print(rnd, '|', pre, '|', cons, '|', o, '' if done else 'ABORTED ' + tail)
+            bad += (not done) or o[0] != ('system', '1.0') or o[1] != o[0]
+        sys.exit(1 if bad else 0)
     if part == 'shared':
         problems, obs = shared_case(d['case'])
         print('case     :', d['case'])
@@ -1314,6 +1377,10 @@ def main():
         ck.part('sequences', wall_s=round(time.time() - t0, 1))
         evals += n
         runs += setups
+    if ck.want('ovr'):
+        n, r = part_ovr(ck, classes)
+        evals += n
+        runs += r
     if ck.want('acq'):
         t0 = time.time()
         n, sk, r = part_acq(ck, classes)
